@@ -34,7 +34,7 @@ def floors(ctx):
     return {"evaluations": 1500 if q else 15000, "links_checked": 5000 if q else 50000, "self_entries": 100,
             "repeated_entries": 100, "empty_rows": 100, "generator_rows": 50, "cases_with_prior_links": 200,
             "readback_cases": 300, "error_inputs": 100, "side_array_duplicates": 30, "exotic_truthy_cells": 200,
-            "big_inputs": 4}
+            "big_inputs": 4, "ragged_matrices_with_n_squared_cells": 50}
 
 
 def cell_value(c):
@@ -101,6 +101,8 @@ def run_case(ctx, case):
             bad = "side_length"
         elif any(len(r) != n for r in matrix):
             bad = "not_square"
+            if sum(len(r) for r in matrix) == n * n:
+                ctx.count("ragged_matrices_with_n_squared_cells")
         pairs, order = [], list(case["side"])
         if len(set(case["side"])) < len(case["side"]):
             ctx.count("side_array_duplicates")
@@ -261,6 +263,13 @@ def gen_case(rng, big=False):
         side = side + [rng.choice(vnames)] if vnames else side  # wrong side length
     elif r < 0.24 and n:
         matrix.pop()
+    elif r < 0.32 and n >= 2:
+        # ragged, but the cell count is still n*n: cells moved from one row to another (rows 3+1, 0+4, 2+3+4, ...)
+        for _ in range(rng.randint(1, 2)):
+            i, j = rng.sample(range(n), 2)
+            k = rng.randint(1, max(1, len(matrix[i])))
+            moved, matrix[i] = matrix[i][len(matrix[i]) - k:], matrix[i][:len(matrix[i]) - k]
+            matrix[j] = matrix[j] + moved
     return {"history": history, "builder": "matrix", "cls": cls, "side": side, "matrix": matrix}
 
 
